@@ -154,6 +154,11 @@ func (c *CBC) Decrypt(header recordlayer.Header, in []byte) ([]byte, error) {
 	}
 
 	dataEnd := len(body) - macSize - paddingLen
+	if dataEnd < 0 {
+		// Well-formed padding that leaves no room for the MAC (e.g. a record
+		// that is all padding) must fail like any other bad record.
+		return nil, dtlserrors.ErrInvalidMAC
+	}
 
 	expectedMAC := body[dataEnd : dataEnd+macSize]
 	var err error
